@@ -241,6 +241,8 @@ pub fn run_property(ctx: &Ctx, prop: &dyn Property) -> Summary {
     let t0 = Instant::now();
     let n = std::env::var("VERIF_RUNS").ok().and_then(|v| v.parse().ok()).unwrap_or_else(|| prop.runs(&ctx.tier));
     let label = prop.id();
+    // debugging aid: explore run indices first..first+n instead of 0..n
+    let first: u64 = std::env::var("VERIF_FIRST").ok().and_then(|v| v.parse().ok()).unwrap_or(0);
     println!("seedsim: property={} tier={} VERIF_SEED={} runs={} workers={}", label, ctx.tier, ctx.seed, n, workers());
     {
         use std::io::Write;
@@ -264,13 +266,13 @@ pub fn run_property(ctx: &Ctx, prop: &dyn Property) -> Summary {
             let path = res_dir.join(format!("r{wk}.jsonl"));
             let dump_all = std::env::var("SEEDSIM_DUMP").is_ok();
             let mut f = std::io::BufWriter::new(std::fs::File::create(&path).expect("cannot create result file"));
-            let mut i = wk as u64;
+            let mut i = first + wk as u64;
             let stop_flag = res_dir.join("stop-after-hangs");
             let mut hangs = 0u32;
             // full case records are only kept where the parent needs them: early indices
             // (evidence samples) and the first few violations of each signature
             let mut sig_seen: BTreeMap<String, u32> = BTreeMap::new();
-            while i < n {
+            while i < first + n {
                 let mut rng = Rng::for_run(ctx.seed, label, i);
                 let case = prop.gen_case(ctx, wk, &mut rng, i);
                 // once hangs have been established, stop burning wall-clock on them:
@@ -286,7 +288,7 @@ pub fn run_property(ctx: &Ctx, prop: &dyn Property) -> Summary {
                         let _ = std::fs::write(&stop_flag, b"1");
                     }
                 }
-                let mut keep_case = i < SAMPLE_WINDOW || dump_all;
+                let mut keep_case = i - first < SAMPLE_WINDOW || dump_all;
                 if let Some(v) = &out.violation {
                     let c = sig_seen.entry(v.signature.clone()).or_insert(0);
                     *c += 1;
@@ -364,7 +366,7 @@ pub fn run_property(ctx: &Ctx, prop: &dyn Property) -> Summary {
                 std::process::exit(2);
             }
         };
-        if j.get("i").and_then(J::as_u64) != Some(i as u64) {
+        if j.get("i").and_then(J::as_u64) != Some(first + i as u64) {
             eprintln!("HARNESS-ERROR: result files out of order at run index {i}");
             std::process::exit(2);
         }
@@ -426,7 +428,7 @@ pub fn run_property(ctx: &Ctx, prop: &dyn Property) -> Summary {
             all_viols += 1;
             *viol_sigs.entry(v.signature.clone()).or_insert(0) += 1;
             if let Some(case) = case {
-                viols.push((i as u64, case, v));
+                viols.push((first + i as u64, case, v));
             }
         }
     }
